@@ -215,7 +215,7 @@ impl<'a> Hist<'a> {
             }
         }
         if !errs.is_empty() {
-            return Err(self.violation("a layer was handed a span its filter rejected (or that it was never shown)", json!({"layer_reports": errs})));
+            return Err(self.violation("a layer was handed or shown a span its filter rejected (or that it was never shown)", json!({"layer_reports": errs})));
         }
         Ok((lev, fev))
     }
